@@ -67,7 +67,7 @@ class C10(MsgProp):
                     else:
                         Cn = list(reversed(full))
                     cases.append((list(Sn), list(Gn), Cn, "order:" + order))
-            for inv in ("sat0", "sat65", "badsig", "dupsat", "dupcell", "mismatch-extra-sat", "mismatch-extra-cell", "cells65",
+            for inv in ("sat0", "sat65", "badsig", "badsig", "badsig", "badsig", "dupsat", "dupcell", "mismatch-extra-sat", "mismatch-extra-cell", "cells65",
                         "only-sats", "only-cells"):
                 cases.append((None, None, None, inv))
             for S, G, C, inv in cases:
@@ -281,6 +281,14 @@ class C18(Prop):
                 for a in attrs + [0x100, 0x20AC, 0x1F600]:
                     yield (f"SIG {gnss} {b} {a}", "validity", (b, a) in rec)
             recl = sorted(rec)
+            # unrecognised descriptors that a lossy comparison would take for a recognised one (attribute equal
+            # after truncation to 8 or 16 bits, a 7-bit mask or a case fold)
+            for x in recl:
+                for a in alias_chars(x[1]):
+                    if (x[0], a) not in rec:
+                        yield (f"SIG {gnss} {x[0]} {a}", "validity-alias", True)
+                        yield (f"SIGCMP {gnss} {x[0]} {x[1]} {x[0]} {a}", "cmp-alias", True)
+                        yield (f"SIGCMP {gnss} {x[0]} {a} {x[0]} {x[1]}", "cmp-alias", True)
             for x in recl:
                 for y in recl:
                     yield (f"SIGCMP {gnss} {x[0]} {x[1]} {y[0]} {y[1]}", "cmp-recognised", True)
